@@ -113,7 +113,8 @@ def main():
         "evaluations": n, "distinct_nontrivial": distinct,
         "rule": "every constructor x every mask of registers up to %d qubits (matrix), dense random states on the register "
                 "path n=0..5, every mask of %d qubits on basis states, sparse probes at bit positions up to %d, structure "
-                "and refusal on wide masks; distinct = distinct harness case lines" % (3 if tier == "quick" else 4,
+                "and refusal on wide masks; sparse probes on registers of 14-17 qubits, serial and under 2-7 workers, every bit of the "
+                "gate on qubits 10-16; distinct = distinct harness case lines" % (3 if tier == "quick" else 4,
                                                                                      4 if tier == "quick" else 5,
                                                                                      12 if tier == "quick" else 20),
         "disagreements_checked": len(dis),
